@@ -1,0 +1,37 @@
+//go:build verif && amd64 && go1.17 && !go1.27
+// +build verif,amd64,go1.17,!go1.27
+
+package verifx
+
+import (
+	"reflect"
+
+	"github.com/bytedance/sonic/internal/encoder"
+	"github.com/bytedance/sonic/option"
+)
+
+// Encoder hooks for the verification harness under /verif (properties C03, C12, C04).
+
+const (
+	EncMaxStack  = encoder.VerifMaxStack
+	EncMaxILBuf  = encoder.VerifMaxILBuf
+	EncMaxFields = encoder.VerifMaxFields
+)
+
+// EncDumpProgram: the encoder IR of a type (see internal/encoder.VerifDumpProgram).
+func EncDumpProgram(vt reflect.Type, pv bool, opts option.CompileOptions, name func(reflect.Type) string) (string, error) {
+	return encoder.VerifDumpProgram(vt, pv, opts, name)
+}
+
+// EncResolveStruct: the resolved JSON fields of a struct type (see internal/encoder.VerifResolveStruct).
+func EncResolveStruct(vt reflect.Type, name func(reflect.Type) string) string {
+	return encoder.VerifResolveStruct(vt, name)
+}
+
+func EncUseVM() bool        { return encoder.VerifUseVM() }
+func EncForceUseVM()        { encoder.VerifForceUseVM() }
+func EncForceUseJit()       { encoder.VerifForceUseJit() }
+func EncResetProgramCache() { encoder.VerifResetProgramCache() }
+func EncEncode(v interface{}, opts uint64) ([]byte, error) {
+	return encoder.Encode(v, encoder.Options(opts))
+}
